@@ -2,9 +2,9 @@ package checks
 
 import (
 	"go/ast"
-	"os"
 	"go/token"
 	"go/types"
+	"os"
 	"sort"
 	"strings"
 
